@@ -229,26 +229,50 @@ func join(xs []string) string {
 // State is the canonical projection of the module state the observation lines carry (hx.Stater).
 func (r *R) State(ctx sdk.Context) string { return r.state(ctx) }
 
-// state renders the module state and the bank slice, canonically.
-func (r *R) state(ctx sdk.Context) string {
+// GenesisState is the part of the projection that must survive an export/import round trip
+// (hx.GenesisStater): ExportGenesis keeps only OPEN contracts by design, so closed contracts are
+// left out, as are the queue entries of anything but open contracts, the block header and the
+// bank slice (x/bank's own genesis).
+func (r *R) GenesisState(ctx sdk.Context) string {
+	prev, params, hs, qs, ss := r.moduleParts(ctx, true)
+	return fmt.Sprintf("prev=%s params=%s htlcs=%s queue=%s sup=%s", prev, params, join(hs), join(qs), join(ss))
+}
+
+// moduleParts renders the five tables of the module store (openOnly: only open contracts and their entries).
+func (r *R) moduleParts(ctx sdk.Context, openOnly bool) (prev, params string, hs, qs, ss []string) {
 	k := r.env.HTLC
-	prev := "-"
+	prev = "-"
 	if t, ok := k.GetPreviousBlockTime(ctx); ok {
 		prev = strconv.FormatInt(t.UnixNano(), 10)
 	}
-	var hs, qs, ss, bs, us []string
+	isOpen := map[string]bool{}
 	for _, h := range r.htlcs(ctx) {
+		if h.State == htlctypes.Open {
+			isOpen[strings.ToLower(h.Id)] = true
+		} else if openOnly {
+			continue
+		}
 		hs = append(hs, fmt.Sprintf("%s:%s:%s:%s:%s:%s:%d:%d:%s:%d:%s:%s", strings.ToLower(h.Id), r.sym(h.Sender), r.sym(h.To),
 			showCoins(h.Amount), strings.ToLower(h.HashLock), dashS(strings.ToLower(h.Secret)), h.Timestamp, h.ExpirationHeight,
 			stateLetter(h.State), h.ClosedBlock, b01(h.Transfer), dirLetter(h.Direction)))
 	}
 	for _, q := range r.queue(ctx) {
+		if openOnly && !isOpen[q.id] {
+			continue
+		}
 		qs = append(qs, fmt.Sprintf("%d/%s", q.h, q.id))
 	}
 	for _, s := range k.GetAllAssetSupplies(ctx) {
 		ss = append(ss, fmt.Sprintf("%s:%s:%s:%s:%s:%d", s.CurrentSupply.Denom, s.IncomingSupply.Amount, s.OutgoingSupply.Amount,
 			s.CurrentSupply.Amount, s.TimeLimitedCurrentSupply.Amount, int64(s.TimeElapsed)))
 	}
+	return prev, r.showAssets(k.GetParams(ctx).AssetParams), hs, qs, ss
+}
+
+// state renders the module state and the bank slice, canonically.
+func (r *R) state(ctx sdk.Context) string {
+	prev, params, hs, qs, ss := r.moduleParts(ctx, false)
+	var bs, us []string
 	accs := []string{"M"}
 	for i := 0; i < nAcc; i++ {
 		accs = append(accs, hx.AccName(i))
@@ -267,7 +291,7 @@ func (r *R) state(ctx sdk.Context) string {
 		return false
 	})
 	return fmt.Sprintf("h=%d t=%d prev=%s params=%s htlcs=%s queue=%s sup=%s bals=%s bsup=%s",
-		ctx.BlockHeight(), ctx.BlockTime().UnixNano(), prev, r.showAssets(k.GetParams(ctx).AssetParams),
+		ctx.BlockHeight(), ctx.BlockTime().UnixNano(), prev, params,
 		join(hs), join(qs), join(ss), join(bs), join(us))
 }
 
